@@ -89,6 +89,34 @@ def centerImageTrim (rows cols : Nat) (oddSize square : Bool) : Nat × Nat × Na
       (0, rows1, xs, rows1)
   else (0, rows, 0, cols1)
 
+/-! `center_image` with an explicit whole-pixel origin, as coded after the repairs F36 / F38 / F58: trim, convert the origin (given in the
+coordinates of the *input* image, negative = from the end) to the trimmed frame or refuse it, centre, square again -/
+
+/-- one coordinate of the explicit origin in the trimmed frame; `none` = refused (the point lies in what the trimming removes) -/
+def explicitOrigin (n trimmed size' : Nat) (o : Int) : Option Int :=
+  let o2 := wrapOrigin n o - trimmed
+  if o2 < 0 ∨ o2 > (size' : Int) - 1 then none else some o2
+
+/-- the part `[start, start + len)` of an axis map -/
+def AxisMap.slice (m : AxisMap) (start len : Nat) : AxisMap := ⟨len, fun i => if i < len then m.src (start + i) else none⟩
+
+/-- source indices of the trimmed frame expressed in the input frame -/
+def AxisMap.shiftSrc (m : AxisMap) (k : Nat) : AxisMap := ⟨m.size, fun i => (m.src i).map (· + k)⟩
+
+/-- row and column maps (output index → input index) of `center_image(IM, method=(o0, o1), odd_size, square, crop)` -/
+def centerImageExplicit (crop : Crop) (rows cols : Nat) (oddSize square : Bool) (o0 o1 : Int) : Option (AxisMap × AxisMap) :=
+  let t := centerImageTrim rows cols oddSize square
+  match explicitOrigin rows t.1 t.2.1 o0, explicitOrigin cols t.2.2.1 t.2.2.2 o1 with
+  | some a, some b =>
+    let rm := centerAxis crop t.2.1 a
+    let cm := centerAxis crop t.2.2.2 b
+    if square && rm.size != cm.size then
+      let size0 := min rm.size cm.size
+      let size := if oddSize && size0 % 2 == 0 then size0 - 1 else size0
+      some ((rm.slice (rm.size / 2 - size / 2) size).shiftSrc t.1, (cm.slice (cm.size / 2 - size / 2) size).shiftSrc t.2.2.1)
+    else some (rm.shiftSrc t.1, cm.shiftSrc t.2.2.1)
+  | _, _ => none
+
 /-! sub-pixel part of a centring shift with `order=1` (linear interpolation of the zero-padded data) -/
 section
 variable {α : Type} [Add α] [Sub α] [Mul α] [OfNat α 1]
